@@ -140,6 +140,9 @@ type Server struct {
 
 	// serviceSafePointLock is a lock for UpdateServiceGCSafePoint
 	serviceSafePointLock sync.Mutex
+	// gcSafePointLock serialises load-compare-save of the cluster GC safe point,
+	// so that concurrent UpdateGCSafePoint requests can never move it backwards.
+	gcSafePointLock sync.Mutex
 
 	// Store as map[string]*grpc.ClientConn
 	clientConns sync.Map
